@@ -84,6 +84,8 @@ def scenarios():
     add('S1 athlon score||performance first-call', [], [_call(sc, 'F', 'WT', 15.0), _call(pf, 'M', '60', 900)], bound=(1, 2))
     add('S1 athlon score||score warmed-up', [_call(sc, 'M', '100', 11)], [_call(sc, 'M', '100', 10.5), _call(sc, 'F', 'HJ', 1.8)], bound=(2, 3))
     add('S1 athlon score with age || score first-call', [], [_call(sc, 'M', '100', 12.5, 50), _call(sc, 'F', 'LJ', 4.5, 60)], bound=(1, 2))
+    add('S1 athlon score with age || score with age, table warmed-up by a call without age', [_call(sc, 'M', '100', 11)],
+        [_call(sc, 'M', '100', 12.5, 52), _call(sc, 'F', 'LJ', 4.8, 47)], bound=(2, 2))
     add('S1 athlon three threads first-call', [], [_call(sc, 'M', '100', 10.5), _call(pf, 'F', 'HJ', 1000), _call(sc, 'F', '800', 130.0)],
         bound=(1, 2))
     # ESAA option and veterans' alias rows (same shared coefficient rows, other code paths)
@@ -98,6 +100,9 @@ def scenarios():
     add('S2 hungarian score||score first-call', [], [_call(hs, 'M', 'OUT', '100', 10.5), _call(hs, 'F', 'OUT', 'LJ', 6.5)], bound=(1, 2))
     add('S2 hungarian score||score warmed-up', [_call(hs, 'M', 'OUT', '200', 21)],
         [_call(hs, 'M', 'OUT', '100', 10.5), _call(hs, 'F', 'OUT', 'LJ', 6.5)], bound=(2, 3))
+    add('S2 hungarian three threads, three (gender, in/out) parts, first-call', [],
+        [_call(hs, 'M', 'OUT', '100', 10.0), _call(hs, 'F', 'OUT', '100', 11.5), _call(hs, 'F', 'OUT', '200', 23.0)], bound=(1, 2))
+    add('S2 hungarian M OUT || F IN || M IN first-call', [], [_call(hs, 'M', 'OUT', '100', 10.0), _call(hs, 'F', 'IN', '60', 7.5), _call(hs, 'M', 'IN', '60', 7.0)], bound=(1, 1))
     add('S2 hungarian M || mixed gender X first-call', [], [_call(hs, 'M', 'OUT', '100', 10.5), _call(hs, 'X', 'OUT', 'LJ', 7.5)], bound=(1, 2))
     add('S2 hungarian X || X warmed-up', [_call(hs, 'M', 'OUT', '200', 21)], [_call(hs, 'X', 'OUT', '100', 10.5), _call(hs, 'X', 'IN', '60', 7.0)], bound=(1, 2))
     # S3 Sportshall
